@@ -37,6 +37,7 @@ type CallAssert struct {
 	Callee string
 	K      int
 	Cl     Clause
+	Assume bool // assume-at: an environment assumption stated where its subject exists (listed in the evidence), not proved
 }
 
 type Contract struct {
@@ -75,7 +76,7 @@ func shortPkg(p string) string {
 var directives = map[string]bool{"func": true, "property": true, "arith": true, "requires": true, "ensures": true,
 	"modifies": true, "may_panic": true, "nopanic": true, "loop": true, "pure": true, "trusted": true,
 	"isa": true, "lanes": true, "crosslane": true, "commutes": true, "assert-at": true, "iface": true,
-	"view": true, "lock": true, "note": true, "fp": true, "spec": true, "lemma": true, "assume-iface": true, "inline": true, "implements": true, "case": true, "extern": true}
+	"view": true, "lock": true, "note": true, "fp": true, "spec": true, "lemma": true, "assume-iface": true, "inline": true, "implements": true, "case": true, "extern": true, "assume-at": true}
 
 // parseContractFile reads one zz_contracts_verif.go (or .gspec) file.
 func parseContractFile(path, pkgPath string) ([]*Contract, []*SpecFn, error) {
@@ -206,7 +207,7 @@ func parseContractFile(path, pkgPath string) ([]*Contract, []*SpecFn, error) {
 			}
 		case "may_panic":
 			cur.MayPanic = append(cur.MayPanic, rc.text)
-		case "assert-at":
+		case "assert-at", "assume-at":
 			f := strings.Fields(rc.text)
 			if len(f) >= 4 && f[0] == "call" {
 				// assert-at call <callee substring> <k> name: expr   (k-th call, in source order, whose callee name contains the substring)
@@ -226,7 +227,7 @@ func parseContractFile(path, pkgPath string) ([]*Contract, []*SpecFn, error) {
 				if name == "" {
 					name = "a"
 				}
-				cur.CallAssert = append(cur.CallAssert, CallAssert{Callee: f[1], K: k, Cl: Clause{Name: name, E: e, Src: src, Line: rc.line}})
+				cur.CallAssert = append(cur.CallAssert, CallAssert{Callee: f[1], K: k, Cl: Clause{Name: name, E: e, Src: src, Line: rc.line}, Assume: rc.dir == "assume-at"})
 				continue
 			}
 			if len(f) < 3 || f[0] != "return" {
